@@ -1,16 +1,6 @@
 HOOK_COMMITS = []
 NOT_APPLICABLE = {
-    'C05': 'not yet wired (in progress this session)',
-    'C06': 'not yet wired (in progress this session)',
-    'C07': 'not yet wired (in progress this session)',
-    'C08': 'not yet wired (in progress this session)',
-    'C09': 'not yet wired (in progress this session)',
-    'C10': 'not yet wired (in progress this session)',
     'C11': 'text-level inverse of CSV writing/parsing: string, regex and csv-crate code is outside the reach of any contract the installed verifiers can discharge',
-    'C12': 'not yet wired (in progress this session)',
-    'C13': 'not yet wired (in progress this session)',
     'C14': 'quantifies over crash points inside std::fs / csv::Writer streaming; a function contract relates pre- and post-state of a completed call only, so no contract within reach expresses it',
-    'C18': 'not yet wired (in progress this session)',
-    'C19': 'not yet wired (in progress this session)',
-    'C20': 'not yet wired (in progress this session)',
+    'C19': 'regex parsers and the itertools subset search are outside the verifier; the remaining contract on amend_benefit_sales is not completed (front-end probe only); D8 repaired and watched nowhere in a claimed check',
 }
